@@ -5,14 +5,24 @@
 (* (command line, library result): what the binary must then show.           *)
 EXTENDS JqCli
 
+\* where the program may stop in a run over n input files
+Stops(n) == {"never", "begin"} \cup (IF n >= 1 THEN {"in1"} ELSE {}) \cup (IF n >= 2 THEN {"in2"} ELSE {})
+\* what the wrapper refuses by itself (given a program it could load)
+WrapperRefuses(c) == ~c.badProg /\ (InputFault(c) \/ (JsonWanted(c) /\ c.nfiles > 1))
 Configs ==
   {c \in [progVia : {"inline", "file"}, nfiles : 0..2, same : BOOLEAN, nsel : 0..2, out : {"none", "dash", "path"},
-          badProg : BOOLEAN, badAt : 0..2, badKind : {"none", "missing", "unreadable"}] :
+          badProg : BOOLEAN, badAt : 0..2, badKind : {"none", "missing", "unreadable"},
+          stop : {"pool"} \cup StopsAll, alias : {"none", "input", "spelled", "symlink", "hardlink"}] :
      /\ c.badProg => c.progVia = "file"
      \* one path cannot be usable the first time and unusable the second
      /\ c.same => (c.nfiles = 2 /\ c.badAt <= 1)
      /\ c.badAt <= c.nfiles
-     /\ (c.badAt = 0) <=> (c.badKind = "none")}
+     /\ (c.badAt = 0) <=> (c.badKind = "none")
+     \* a refusal by the wrapper x every point at which the program may stop; else the programs of the pool
+     /\ IF WrapperRefuses(c) THEN c.stop \in Stops(c.nfiles) ELSE c.stop = "pool"
+     \* in place: -o names the one input file
+     /\ c.alias # "none" => (c.out = "path" /\ c.nfiles = 1 /\ c.badAt = 0 /\ ~c.badProg)}
+NShapes == Cardinality({[c EXCEPT !.stop = "pool", !.alias = "none"] : c \in Configs})
 
 Init == \E c \in Configs : Start(c)
 Next == \E r \in LibResults : CliNext(r)
@@ -21,11 +31,16 @@ Spec == Init /\ [][Next]_cvars
 \* the laws are about the function Result only: evaluate them once, in the initial states
 Laws ==
   pc = "parse" => /\ LawProgVia({cfg}) /\ LawStdin({cfg}) /\ LawOutPath({cfg}) /\ LawOutBytes({cfg}) /\ LawErrors({cfg}) /\ LawSamePath({cfg})
+                  /\ LawStop({cfg}) /\ LawInPlace({cfg})
 
 \* every command line shape is present
 Complete ==
   pc = "parse" =>
-    /\ Cardinality(Configs) = 324
+    /\ NShapes = 324 /\ Cardinality(Configs) = 816
+    \* every refusal of the wrapper at every stop, every way of naming the input with -o
+    /\ \A c \in Configs : WrapperRefuses(c) => \A s \in Stops(c.nfiles) : [c EXCEPT !.stop = s] \in Configs
+    /\ \A v \in {"inline", "file"}, s \in 0..2, a \in {"input", "spelled", "symlink", "hardlink"} :
+         \E c \in Configs : c.progVia = v /\ c.nfiles = 1 /\ c.nsel = s /\ c.out = "path" /\ c.alias = a
     /\ \A v \in {"inline", "file"}, s \in 0..2, o \in {"none", "dash", "path"} :
          \E c \in Configs : c.progVia = v /\ c.nfiles = 2 /\ c.same /\ c.nsel = s /\ c.out = o /\ ~c.badProg /\ c.badAt = 0
     /\ \A v \in {"inline", "file"}, n \in 0..2, s \in 0..2, o \in {"none", "dash", "path"} :
